@@ -215,6 +215,27 @@ pub fn cases_simple(rng: &mut Rng, count: usize, tier: &str, which: &str) -> Vec
                 tags.push("failing_annotate");
                 World::Builder(s)
             }
+            // C02: a record first seen under an empty name (phenotype_to_genes rows without a symbol), later
+            // under its real one: the first name stays, and so do the terms recorded so far
+            ("C02", World::Builder(mut s)) if rng.chance(1, 3) => {
+                let mut seen: BTreeSet<(u8, u32)> = BTreeSet::new();
+                let mut count: std::collections::BTreeMap<(u8, u32), usize> = std::collections::BTreeMap::new();
+                for a in &s.annots {
+                    *count.entry((a.0 % 3, a.1)).or_insert(0) += 1;
+                }
+                let mut changed = false;
+                for a in s.annots.iter_mut() {
+                    let key = (a.0 % 3, a.1);
+                    if seen.insert(key) && count[&key] >= 2 && rng.chance(1, 2) {
+                        a.3 = String::new();
+                        changed = true;
+                    }
+                }
+                if changed {
+                    tags.push("empty_first_name");
+                }
+                World::Builder(s)
+            }
             (_, w) => w,
         };
         let bl = w.build();
